@@ -341,6 +341,16 @@ func replayNewMap(line []byte, a *Acc) {
 		} else if err == nil {
 			a.Mis("newmap:malformed-accepted", fmt.Sprintf("NewMap(%q) returned no error", bad), nmLine{F: "newmap", M: l.M})
 		}
+		// ... wherever it stands: after pairs that were accepted, after a pair that selected nothing, after an empty argument
+		for _, first := range [][]string{{"a:r"}, {"zz:r"}, {"a:r", "", "b:s.t"}} {
+			args := append(append([]string{}, first...), bad)
+			var e2 error
+			if p := guard(func() { _, e2 = mv.NewMap(args...) }); p != "" {
+				a.Mis("newmap:malformed-panic", fmt.Sprintf("NewMap(%q): %s", args, p), nmLine{F: "newmap", M: l.M})
+			} else if e2 == nil {
+				a.Mis("newmap:malformed-accepted-later", fmt.Sprintf("NewMap(%q) returned no error; alone the last pair is refused", args), nmLine{F: "newmap", M: l.M})
+			}
+		}
 	}
 	if tagged.CanonGo(mv) != pre {
 		a.Mis("newmap:receiver-modified:malformed", "malformed pair modified the receiver", nmLine{F: "newmap", M: l.M})
